@@ -410,7 +410,14 @@ pub fn subjects(v: &mut Vec<Subject>) {
     subj_wd!(v, "transactions::ConfigureBakerKeysPayload", ConfigureBakerKeysPayload, g_baker_configure_keys);
     subj_wd!(v, "transactions::AddBakerPayload", AddBakerPayload, g_add_baker);
     subj_wd!(v, "Payload", Payload, g_payload);
-    v.last_mut().unwrap().crafted = Some(Box::new(crafted_payload));
+    {
+        let s = v.last_mut().unwrap();
+        let generic = s.crafted.take();
+        s.crafted = Some(Box::new(move |seed| match (&generic, seed & 1) {
+            (Some(g), 1) => g(seed >> 1),
+            _ => crafted_payload(seed >> 1),
+        }));
+    }
     subj_wd!(v, "transactions::AccountTransaction<EncodedPayload>", AccountTransaction<EncodedPayload>, g_account_tx_encoded);
     subj_wd!(v, "transactions::AccountTransaction<Payload>", AccountTransaction<Payload>, g_account_tx);
     subj!(
